@@ -3,7 +3,6 @@
 package k12
 
 import (
-	"bytes"
 	"fmt"
 	"testing"
 
@@ -12,83 +11,24 @@ import (
 	"github.com/cloudflare/circl/internal/verifref/keccak"
 )
 
-// TestVerifC15_k12_lengths: one Write + one Read (and the public one-shot Draft10Sum, which
-// lets NewDraft10 pick the lane count from the CPU) on every message length of the property's
-// alphabet, for every customization length, for lanes 1, 2, 4, against KT128 of ref/keccak.
+// TestVerifC15_k12_lengths: one Write + one Read with the lane count forced to 1, 2, 4 on every
+// message length of the property's alphabet, for every customization length, against KT128 of
+// ref/keccak. In-package only for the unexported constructor newDraft10; the same sweep through
+// the exported Draft10Sum / NewDraft10 is the unit k12_sum in zz_verif_c15_k12pub_test.go.
 func TestVerifC15_k12_lengths(t *testing.T) {
 	r := verifmc.Start(t, "C15", "k12_lengths")
 	defer r.Finish()
 	if err := keccak.SelfTest(); err != nil {
 		t.Fatal(err)
 	}
-	r.Rule("message lengths {0,1,167,168,169,8190..8194} ∪ {k*8192-1,k*8192,k*8192+1 : 2<=k<=10} x customization lengths {0,1,41,8191,8192,8193} x " +
-		"{lanes=1,2,4 forced; Draft10Sum with the CPU-selected lane count} x output lengths {32,169}; non-trivial = distinct (entry, message length, customization length)")
-	const B = chunkSize
-	lens := []int{0, 1, 167, 168, 169, B - 2, B - 1, B, B + 1, B + 2}
-	for k := 2; k <= 10; k++ {
-		lens = append(lens, k*B-1, k*B, k*B+1)
+	var entries []c15hist.K12Entry
+	for _, l := range []byte{1, 2, 4} {
+		l := l
+		entries = append(entries, c15hist.K12Entry{Name: fmt.Sprintf("newDraft10[lanes=%d]", l), Run: func(out, m, c []byte) {
+			s := newDraft10(c, l)
+			_, _ = s.Write(m)
+			_, _ = s.Read(out)
+		}})
 	}
-	clens := []int{0, 1, 41, B - 1, B, B + 1}
-	msg := verifmc.Msg(10*B + 16)[3:]
-	type job struct{ l, c int }
-	var jobs []job
-	for _, l := range lens {
-		for _, c := range clens {
-			jobs = append(jobs, job{l, c})
-		}
-	}
-	r.Set("message_lengths", len(lens))
-	r.Set("customization_lengths", clens)
-	var coll c15hist.Collector
-	verifmc.ParallelFor(len(jobs), func(i int) {
-		j := jobs[i]
-		m, c := msg[:j.l], c15Custom(j.c)
-		want := keccak.KT128(m, c, 169)
-		for way := 0; way < 4; way++ {
-			name := "Draft10Sum"
-			if way < 3 {
-				name = fmt.Sprintf("newDraft10[lanes=%d]", 1<<uint(way))
-			}
-			if way == 3 {
-				// single-chunk / multi-chunk boundary is where the total S = M || C || len(C) crosses 8192
-				total := j.l + j.c + len(keccak.LengthEncode(uint64(j.c)))
-				if total == B || total == B+1 {
-					r.Count("total_at_chunk_boundary", 1)
-				}
-			}
-			for _, out := range []int{32, 169} {
-				id := fmt.Sprintf("%s/len=%d/c=%d/out=%d", name, j.l, j.c, out)
-				if !r.Want(id) {
-					continue
-				}
-				r.Eval(1)
-				r.Distinct(name, j.l, j.c)
-				got := bytes.Repeat([]byte{0x77}, out)
-				p, what := verifmc.Try(func() {
-					if way == 3 {
-						Draft10Sum(got, m, c)
-						return
-					}
-					s := newDraft10(c, byte(1<<uint(way)))
-					_, _ = s.Write(m)
-					_, _ = s.Read(got)
-				})
-				cls := "single-chunk"
-				if j.l+j.c+1 > B {
-					cls = "multi-chunk"
-				}
-				if p {
-					coll.Add(i, way*2, "C15|k12."+name+"|panic:"+verifmc.PanicClass(what)+"|"+cls, id, id+": "+what, nil)
-				} else if !bytes.Equal(got, want[:out]) {
-					coll.Add(i, way*2+1, "C15|k12."+name+"|output-mismatch|"+cls, id,
-						fmt.Sprintf("%s: got %s want %s", id, verifmc.Hex(got), verifmc.Hex(want[:out])),
-						map[string]interface{}{"entry": name, "len": j.l, "custom_len": j.c, "out": out})
-				}
-			}
-		}
-	})
-	coll.Flush(r)
-	r.Sample(map[string]interface{}{"entry": "Draft10Sum", "len": 8192, "custom_len": 8191, "out": 32})
-	r.Sample(map[string]interface{}{"entry": "newDraft10[lanes=2]", "len": 10*B + 1, "custom_len": 41, "out": 169})
-	r.RequireCounter("total_at_chunk_boundary", 2)
+	c15hist.K12LengthSweep(r, "k12", entries)
 }
